@@ -419,7 +419,7 @@ def f7(tier, rnd) -> List[Desc]:
         cf = M.custom_field(f'Cf{w}', w)
         pk = [M.packet('C', [M.typedef('c', cf.name)]),
               M.packet('C2', [M.scalar('a', 8), M.typedef('c', cf.name), M.scalar('t', 8)])]
-        out.extend(both(Desc(f'f7_custom{w}', _le([cf] + pk), 'F7', python=False)))
+        out.extend(both(Desc(f'f7_custom{w}', _le([cf] + pk), 'F7', python=False, core=(w == 16))))
     return out
 
 
@@ -487,6 +487,7 @@ CORE_KINDS = {
     'f4_cons_size': {'P': ['c06d'], 'Ext': ['c06v']},
     'f4_wide_constraint': {'Frame': ['c06d'], 'Ping': ['c06v', 'c03']},
     'f7_forward': {'Nest': ['c03']},
+    'f7_custom16': {'C': ['c01'], 'C2': ['c03']},
 }
 
 
